@@ -226,6 +226,15 @@ let () =
                    match encode env (TNamed (cl t)) (parse_val v) with
                    | Some b -> "ok " ^ hex_of_bytes b
                    | None -> "illtyped")
+               | "rtv", [ t; v ] -> (
+                   match encode env (TNamed (cl t)) (parse_val v) with
+                   | None -> "illtyped"
+                   | Some b -> (
+                       match decode env (TNamed (cl t)) b with
+                       | Ok (v, r) -> Printf.sprintf "ok %s rest=%d" (show_val v) (List.length r)
+                       | Err e -> "err " ^ cerr_name e
+                       | Panic s -> "panic " ^ str s
+                       | Fuel -> "fuel"))
                | "reser", [ t; h ] -> (
                    match decode env (TNamed (cl t)) (bytes_of_hex h) with
                    | Ok (v, _) -> (
